@@ -27,8 +27,8 @@ cells' own segments between the box characters), `Table.__rich_measure__`, the i
 without `__rich_measure__` (`opaque`) and objects cast through `__rich__` (`cast`).
 
 Where a frame function answers "outside my domain" (`panelConsole … = .ok none`: a panel title that is not a one-line
-simple text, an unknown box) or Python would raise (`Table()` without columns asked to expand: `AssertionError` of
-`ratio_distribute`), the model emits the *poison* segments `cfg.poison`.  The driver evaluates every request under two
+simple text, an unknown box) or Python would raise (in rich 9.10.0 as found a `Table()` without columns asked to expand: `AssertionError` of
+`ratio_distribute`; repaired by fix 1d61bac, flag `noColumnsAsserts`), the model emits the *poison* segments `cfg.poison`.  The driver evaluates every request under two
 different poisons and answers `unmodelled` when the two results differ, so such a case can never leak into a compared
 answer; the theorems carry the corresponding well-formedness hypotheses explicitly.
 -/
